@@ -60,14 +60,31 @@ func runLockProg(cfg config) {
 
 type ccall struct {
 	op   string
-	args []string
+	args []string // clean absolute paths: what the model, the oracle's classification and the report see
+	raw  []string // optional: the spelling handed to the implementation ("@<spelling>" tokens of the case line)
 }
 
-func (c ccall) String() string { return c.op + " " + strings.Join(c.args, " ") }
+func (c ccall) String() string {
+	s := c.op + " " + strings.Join(c.args, " ")
+	for _, r := range c.raw {
+		s += " @" + r
+	}
+	return s
+}
 
 func parseCall(s string) ccall {
-	f := strings.Fields(s)
-	return ccall{op: f[0], args: f[1:]}
+	c := ccall{}
+	for i, f := range strings.Fields(s) {
+		switch {
+		case i == 0:
+			c.op = f
+		case strings.HasPrefix(f, "@"):
+			c.raw = append(c.raw, f[1:])
+		default:
+			c.args = append(c.args, f)
+		}
+	}
+	return c
 }
 
 func concRes(err error) string {
@@ -80,6 +97,9 @@ func concRes(err error) string {
 // run executes the call on the view v; t is the running thread (for the temp-name stream).
 func (c ccall) run(v avfs.VFS, t *sched.Thread) string {
 	a := c.args
+	if len(c.raw) == len(c.args) {
+		a = c.raw
+	}
 	switch c.op {
 	case "mkdir":
 		return concRes(v.Mkdir(a[0], 0o755))
@@ -1120,6 +1140,28 @@ func runConc(cfg config) {
 			}
 			cr.stats["programs_fixed"]++
 			explore(p, bound, 0, func(e *cexec) { cr.check(p, e, true) })
+		}
+		// A'': the pairs that must exclude each other, the SAME name spelled differently per thread (relative to the
+		// current directory "/", doubled separator, "..", "."): the implementation gets the spelling, model and oracle
+		// the clean path
+		for _, pr := range [][2]string{{"create /a/x", "create /a/x"}, {"mkdir /a/x", "mkdir /a/x"}, {"create /a/x", "mkdir /a/x"}, {"remove /a/f", "remove /a/f"}} {
+			for _, sp := range []func(string) string{
+				func(p string) string { return p[1:] },
+				func(p string) string { return "/" + p },
+				func(p string) string { return "/a/../" + p[1:] },
+				func(p string) string { return "/a/./" + p[3:] },
+			} {
+				for both := 0; both < 2; both++ {
+					c0, c1 := parseCall(pr[0]), parseCall(pr[1])
+					c1.raw = []string{sp(c1.args[0])}
+					if both == 1 {
+						c0.raw = []string{sp(c0.args[0])}
+					}
+					p := cprog{fsname: fsname, threads: [][]ccall{{c0}, {c1}}, rand: randFor(2)}
+					cr.stats["programs_spellings"]++
+					explore(p, bound, 0, func(e *cexec) { cr.check(p, e, true) })
+				}
+			}
 		}
 		// B: two calls in one or both threads (sampled per template pair)
 		perPair := 2
